@@ -123,7 +123,7 @@ def r1_r2_band(repo, report):
         ok = not bad
     ext = [s for s in col_loop.body if isinstance(s, ast.If) and src(s.test).replace(" ", "") == "last<m"]
     ok2 = len(ext) == 1 and [src(x) for x in ext[0].body] == ["last += 1"]
-    filled = [s for s in col_loop.body if isinstance(s, ast.Assign) and chain(s.targets[0]) == "last_filled_i" and src(s.value) == "last"]
+    filled = [s for s in col_loop.body if isinstance(s, ast.Assign) and isinstance(s.targets[0], ast.Name) and src(s.value) == "last"]
     ok3 = len(filled) == 1 and col_loop.body.index(filled[0]) < col_loop.body.index(wl[0]) if wl else False
     report.ob("C02.R2", "Aligner.locate: band shrinks only over cells with cost > k and grows by one", ok and ok2 and ok3, facts=facts | {"extend": src(ext[0])[:60] if ext else None, "last_filled_i_recorded_before_shrinking": ok3},
               expected="while last >= 0 and column[last].cost > k: last -= 1; if last < m: last += 1; last_filled_i = last before shrinking", loc=repo.loc(wl[0]) if wl else repo.loc(col_loop))
@@ -175,15 +175,17 @@ def r4_scans(repo, report):
     ok = ok and isinstance(parent, ast.If) and src(parent.test).replace(" ", "") == "last<m"
     report.ob("C02.R4", "last-row candidates iff the read end may be skipped", ok, facts={"test": src(site1.test), "under": src(parent.test) if isinstance(parent, ast.If) else None}, expected="if last < m: ... elif stop_in_query: <consider column[m]>", loc=repo.loc(site1))
     body = scan_if.body
-    fi = [s for s in body if isinstance(s, ast.Assign) and chain(s.targets[0]) == "first_i"]
+    fi = [s for s in body if isinstance(s, ast.Assign) and isinstance(s.targets[0], ast.Name) and isinstance(s.value, ast.IfExp)]
     ok = len(fi) == 1
     tbl = {}
     if ok:
         rows = explore(repo, [fi[0]], {"self": Obj("self", nonnull=True), "m": Lin.atom("M")}, inline=False)
         for r in rows:
-            tbl[str(r.valuation.get("truthy:self.stop_in_reference"))] = vkey(r.env["first_i"])
+            tbl[str(r.valuation.get("truthy:self.stop_in_reference"))] = vkey(r.env[fi[0].targets[0].id])
         ok = tbl == {"True": "0", "False": "M"}
-    ok2 = src(site2.iter) == "reversed(range(first_i, last_filled_i + 1))"
+    filled = [x.targets[0].id for x in col_loop.body if isinstance(x, ast.Assign) and isinstance(x.targets[0], ast.Name) and src(x.value) == "last"]
+    fvar = fi[0].targets[0].id if fi else None
+    ok2 = len(filled) == 1 and src(site2.iter) == f"reversed(range({fvar}, {filled[0]} + 1))"
     ok3 = src(scan_if.test).replace(" ", "") in ("max_n==n", "n==max_n")
     report.ob("C02.R4", "last-column scan", ok and ok2 and ok3, facts={"first_i": tbl, "iterates": src(site2.iter), "condition": src(scan_if.test)},
               expected="if max_n == n: first_i = 0 if stop_in_reference else m; for i in reversed(range(first_i, last_filled_i + 1))", loc=repo.loc(scan_if),
